@@ -176,6 +176,9 @@ def generate(repo):
     return "\n".join(out)
 
 
+# what runner.check_kernels runs for a property whose propdef sets the flag
+STAGES = [("kernels", "Kernels.v", generate, "Tie.v")]
+
 if __name__ == "__main__":
     import sys
     print(generate(sys.argv[1] if len(sys.argv) > 1 else "/repo"))
